@@ -15,6 +15,8 @@ import (
 
 	"github.com/bartossh/Computantis/src/gossip"
 	pb "github.com/bartossh/Computantis/src/protobufcompiled"
+	"github.com/bartossh/Computantis/src/spice"
+	"github.com/bartossh/Computantis/src/transaction"
 	"github.com/bartossh/Computantis/src/webhooks"
 	"github.com/bartossh/Computantis/src/webhooksserver"
 	"verif.local/simrt"
@@ -568,9 +570,70 @@ func crashScenario(w *World, p *Plan, rec *Record) {
 			}
 		}
 	}
+	w.abandonedRequests(r)
 	w.observe()
 	rec.Nontrivial = true
 	rec.Sample = samples
+}
+
+// abandonedRequests: a perfectly valid request whose caller has given up (deadline passed, stream reset:
+// the handler runs with a cancelled context) is refused; like every refused request it must leave the ledger
+// as it was.
+func (w *World) abandonedRequests(r *prng) {
+	n := w.Nodes[0]
+	if !n.Alive || !n.Loaded || len(w.stuck) > 0 {
+		return
+	}
+	for j := 0; j < 3; j++ {
+		if !w.waitQuiet(20 * time.Second) {
+			return
+		}
+		simrt.SleepFor(5 * time.Second) // past the orphan retries of the frames above
+		if w.ledgerMovedLegitimately(n) {
+			return
+		}
+		before := w.stateDigest(n)
+		netMark, callMark := len(w.Net.Log), len(w.AccCalls)
+		ctx, cancel := context.WithCancel(n.ctx)
+		cancel()
+		name := "notary.Propose"
+		var err error
+		func() {
+			defer func() {
+				if rr := recover(); rr != nil {
+					w.violate("C15", "panic", "abandoned:"+name+"@"+simrt.PanicOrigin(), n.Idx, "%v", rr)
+				}
+			}()
+			me := simrt.Me()
+			old := me.Label
+			me.Label = n.URL
+			defer func() { me.Label = old }()
+			if j%2 == 0 {
+				t, e := transaction.New("pay", spice.Melange{SupplementaryCurrency: uint64(1 + r.Intn(100))}, nil, w.WAddr[1], w.Wallets[0])
+				if e != nil {
+					return
+				}
+				pt, _ := protoOf(&t)
+				_, err = n.Notary.Propose(ctx, pt)
+			} else {
+				name = "gossip.GossipVrx"
+				v, e := w.craft(n, &Step{Kind: "valid", From: 0, To: 1, Sup: uint64(1 + r.Intn(100))}, w.adversary())
+				if e != nil {
+					return
+				}
+				msg := &pb.VrxMsgGossip{Vertex: gossip.VerifVertexToProto(v), Gossipers: []*pb.Gossiper{signedGossiper(w.adversary(), v.Hash)}}
+				_, err = n.Goss.Server().GossipVrx(ctx, msg)
+			}
+		}()
+		w.probe("c15-abandoned-requests")
+		w.fault("ctx-cancelled-before-call")
+		simrt.SleepFor(30 * time.Millisecond)
+		if err != nil {
+			if after := w.stateDigest(n); stateChanged(before, after) && w.Net.quiet() && netMark == len(w.Net.Log) && callMark+1 >= len(w.AccCalls) && !w.ledgerMovedLegitimately(n) {
+				w.violate("C15", "state", "rejected-request-changed-state:"+name+":cancelled-context", n.Idx, "refused with %v, changed %s", err, stateDiff(before, after))
+			}
+		}
+	}
 }
 
 // ledgerMovedLegitimately: orphan retries and in-flight gossip may change a ledger at any time.
